@@ -1,6 +1,7 @@
 package main
 
 import (
+	"bytes"
 	"encoding/json"
 	"fmt"
 
@@ -88,7 +89,8 @@ func twinPESHeader(h *astits.PESHeader, plen, hstuff int) []byte {
 			d = append(d, o.PrivateData...)
 		}
 		if o.HasPackHeaderField {
-			d = append(d, o.PackField) // pack_field_length; only 0 (no pack_header bytes) is generated: the library does not read a pack_header
+			d = append(d, o.PackField) // pack_field_length, then the pack_header bytes (their content is nothing to a PES decoder)
+			d = append(d, bytes.Repeat([]byte{0xaa}, int(o.PackField))...)
 		}
 		if o.HasProgramPacketSequenceCounter {
 			d = append(d, 0x80|o.PacketSequenceCounter&0x7f, 0x80|o.MPEG1OrMPEG2ID&1<<6|o.OriginalStuffingLength&0x3f)
@@ -225,7 +227,7 @@ func runPES(line []byte, rec *recorder) {
 				pvec("flags", h, exactPlen(h, 0, av), 0, av)
 				if fl&1 != 0 { // the same with pack_header_field_flag set and an empty pack header (pack_field_length 0): parse direction only
 					hp := &astits.PESHeader{StreamID: sidOf(), OptionalHeader: randOpt(r, fl, x)}
-					hp.OptionalHeader.HasPackHeaderField, hp.OptionalHeader.PackField = true, 0
+					hp.OptionalHeader.HasPackHeaderField, hp.OptionalHeader.PackField = true, uint8(r.pick(0, 0, 1, 14, 40))
 					pvec("flags-pack-header-field", hp, exactPlen(hp, 0, av), 0, av)
 				}
 			}
